@@ -130,6 +130,7 @@ type renderOpts struct {
 	plain    bool // canonical, no surface variation
 	zeroPad  bool
 	noFinalN bool
+	rich     bool // also: trailing comments on EQU/FOR/ROF lines, colon after a block label, unterminated last line
 }
 
 var reserved = map[string]bool{"equ": true, "org": true, "end": true, "for": true, "rof": true, "dat": true, "mov": true, "add": true, "sub": true,
@@ -280,7 +281,12 @@ func (o *renderOpts) items(sb *strings.Builder, items []item) {
 			}
 			o.eol(sb)
 		case "equ":
-			sb.WriteString(o.name(it.Names[0]) + o.sp() + o.caseOf("equ") + o.sp() + o.expr(it.Toks) + "\n")
+			sb.WriteString(o.name(it.Names[0]) + o.sp() + o.caseOf("equ") + o.sp() + o.expr(it.Toks))
+			if o.rich {
+				o.eol(sb)
+			} else {
+				sb.WriteString("\n")
+			}
 		case "org":
 			sb.WriteString(o.sp() + o.caseOf("org") + o.sp() + o.expr(it.Toks))
 			o.eol(sb)
@@ -297,16 +303,30 @@ func (o *renderOpts) items(sb *strings.Builder, items []item) {
 			sb.WriteString(";" + it.K + " " + it.V + "\n")
 		case "for":
 			for _, l := range it.Labels {
-				sb.WriteString(o.name(l) + o.sp())
+				sb.WriteString(o.name(l))
+				if o.rich && !o.plain && o.r.Intn(3) == 0 {
+					sb.WriteString(":")
+				}
+				sb.WriteString(o.sp())
 			}
 			if it.Ctr != "" {
 				sb.WriteString(o.name(it.Ctr) + o.sp())
 			} else {
 				sb.WriteString(o.sp())
 			}
-			sb.WriteString(o.caseOf("for") + o.sp() + o.expr(it.Count) + "\n")
+			sb.WriteString(o.caseOf("for") + o.sp() + o.expr(it.Count))
+			if o.rich {
+				o.eol(sb)
+			} else {
+				sb.WriteString("\n")
+			}
 			o.items(sb, it.Body)
-			sb.WriteString(o.sp() + o.caseOf("rof") + "\n")
+			sb.WriteString(o.sp() + o.caseOf("rof"))
+			if o.rich {
+				o.eol(sb)
+			} else {
+				sb.WriteString("\n")
+			}
 		}
 	}
 }
@@ -318,6 +338,9 @@ func render(p prog, o *renderOpts) string {
 	s := sb.String()
 	if !strings.HasSuffix(s, "\n") {
 		s += "\n"
+	}
+	if o.rich && !o.plain && o.r.Intn(6) == 0 {
+		s = strings.TrimRight(s, "\n") // the last line is not terminated
 	}
 	return s
 }
